@@ -96,18 +96,22 @@ def main():
         res["demo_mutated_tail"] = out_mut
         tests = {}
         if not a.skip_tests:
-            for t in TESTS:
+            for f in glob.glob(os.path.join(wt, "tests", "*.bin")):
+                shutil.copy(f, work)
+
+            def one(t):
                 exe = os.path.join(work, t)
                 b = build(wt, os.path.join(wt, "tests", t + ".c"), exe, san=False)
                 if b.returncode != 0:
-                    tests[t] = "build-failed"; continue
-                for f in glob.glob(os.path.join(wt, "tests", "*.bin")):
-                    shutil.copy(f, work)
+                    return t, "build-failed"
                 try:
-                    p = subprocess.run([exe], capture_output=True, text=True, timeout=900, cwd=work)
-                    tests[t] = "pass" if p.returncode == 0 else "FAIL rc=%d" % p.returncode
+                    p = subprocess.run([exe], capture_output=True, text=True, errors="replace", timeout=900, cwd=work)
+                    return t, ("pass" if p.returncode == 0 else "FAIL rc=%d" % p.returncode)
                 except subprocess.TimeoutExpired:
-                    tests[t] = "timeout"
+                    return t, "timeout"
+            from concurrent.futures import ThreadPoolExecutor
+            with ThreadPoolExecutor(max_workers=10) as ex:
+                tests = dict(ex.map(one, TESTS))
         res["unit_tests_with_mutation"] = tests
     finally:
         sh(["git", "-C", REPO, "worktree", "remove", "--force", wt])
